@@ -55,6 +55,8 @@ def _copy_read_write(read, write, length):
     else:
         while length > 0:
             buf = read(min(COPY_BUFSIZE, length))
+            if not buf:
+                break
             length -= len(buf)
             write(buf)
 
@@ -71,6 +73,8 @@ def _copy_readinto_write(readinto, write, length):
             while length > 0:
                 with buf[:min(COPY_BUFSIZE, length)] as read_buf:
                     n = readinto(read_buf)
+                if not n:
+                    break
                 with buf[:n] as read_buf:
                     write(read_buf)
                 length -= n
